@@ -60,13 +60,17 @@ fn c10_k4_role_directives_total() {
     match which {
         | 0 => {
             let r = ManuallyDrop::new(MonadicMeta::from_arguments(&arguments));
-            assert!(matches!(&*r, Ok(_)) == (n == 0), "monadic takes no arguments");
-            assert!(matches!(&*r, Ok(_) | Err(MonadicMetaError::Arguments { found }) if *found == n));
+            match &*r {
+                | Ok(_) => assert!(n == 0, "monadic takes no arguments"),
+                | Err(MonadicMetaError::Arguments { found }) => assert!(n != 0 && *found == n, "error reports the count"),
+            }
         }
         | 1 => {
             let r = ManuallyDrop::new(LiteralMeta::from_arguments(&arguments));
-            assert!(matches!(&*r, Ok(_)) == (n == 0), "literal takes no arguments");
-            assert!(matches!(&*r, Ok(_) | Err(LiteralMetaError::Arguments { found }) if *found == n));
+            match &*r {
+                | Ok(_) => assert!(n == 0, "literal takes no arguments"),
+                | Err(LiteralMetaError::Arguments { found }) => assert!(n != 0 && *found == n, "error reports the count"),
+            }
         }
         | 2 => {
             let r = ManuallyDrop::new(IntrinsicMeta::from_arguments(&arguments));
